@@ -22,6 +22,8 @@
 mod types;
 #[path = "../c02/beh.rs"]
 mod beh;
+#[path = "../c02/zst.rs"]
+mod zst;
 
 use roto::verif_hooks::c02 as hook;
 use roto::{FileTree, NoCtx, Runtime, Val, library};
@@ -45,6 +47,8 @@ pub struct Big {
 pub struct Pt(u8, u8, u8);
 #[derive(Clone, Copy, Debug, PartialEq)]
 pub struct Z;
+#[derive(Clone, Debug, PartialEq)]
+pub struct Zc;
 
 pub fn layout_runtime() -> Runtime<NoCtx> {
     Runtime::from_lib(library! {
@@ -54,6 +58,8 @@ pub fn layout_runtime() -> Runtime<NoCtx> {
         #[copy] type Pt = Val<Pt>;
         /// zero-sized Copy type
         #[copy] type Z = Val<Z>;
+        /// zero-sized Clone type
+        #[clone] type Zc = Val<Zc>;
         /// make one
         fn big(x: u64) -> Val<Big> { Val(Big { a: x, b: x + 1, c: x + 2 }) }
     })
@@ -430,10 +436,15 @@ fn check_props(d: &hook::Dump, t: &hook::TypeDump, script: &str, rep: &mut Repor
         let is_enum = matches!(t.node, hook::Node::Enum(_));
         if all_inhabited || is_enum {
             let co = offsets_in(c, &["copy", "clone", "call clone"], "ret");
-            // eq: only components that are compared (zero-sized ones are skipped)
+            // eq: only components that are compared
             let eo = offsets_in(e, &["read", "eq", "call eq"], "left");
             let eo: Vec<u64> = if is_enum { eo.into_iter().skip(1).collect() } else { eo };
-            let nz: Vec<u64> = {
+            // the components a copy / a comparison has to touch: every sized
+            // one; of the zero-sized ones a registered `Clone` value is still
+            // cloned through its registered function, and a registered value
+            // (a reference type whatever its size) is still compared through
+            // its registered eq function
+            let touched = |for_eq: bool| -> Vec<u64> {
                 let mut out = vec![];
                 let mut k = 0;
                 for (p, r) in &t.paths {
@@ -449,13 +460,20 @@ fn check_props(d: &hook::Dump, t: &hook::TypeDump, script: &str, rep: &mut Repor
                             }
                             _ => false,
                         };
-                        if *cs > 0 && !skip {
+                        let registered = matches!(d.types[child].node, hook::Node::Leaf("rtCopy") | hook::Node::Leaf("rtClone"));
+                        let zero_sized_but_touched = if for_eq {
+                            registered
+                        } else {
+                            matches!(d.types[child].needs_clone, Ok(true))
+                        };
+                        if (*cs > 0 || zero_sized_but_touched) && !skip {
                             out.push(*o as u64);
                         }
                     }
                 }
                 out
             };
+            let nz = touched(false);
             // clone: zero-sized components are not copied either
             if co != nz {
                 viol(rep, "offsets used by the generated clone function differ from Lowerer::location's",
@@ -463,6 +481,7 @@ fn check_props(d: &hook::Dump, t: &hook::TypeDump, script: &str, rep: &mut Repor
                     input(json!({"location": nz, "clone": co})),
                 );
             }
+            let nz = touched(true);
             if eo != nz {
                 viol(rep, "offsets compared by the generated eq function differ from Lowerer::location's",
                     "offsets-disagree eq",
@@ -634,6 +653,8 @@ fn main() {
             let mut rep = Report::default();
             // corpus first
             beh::corpus(&mut rep);
+            // the fixed battery over zero-sized registered values
+            zst::run(&mut rep);
             // in chunks, so that a tree on which many cases crash or hang ends
             // the phase after a handful of witnesses instead of paying the
             // time limit hundreds of times
@@ -676,6 +697,15 @@ fn main() {
             }
             rep.emit();
         }
+        Some("zst") => {
+            let mut rep = Report::default();
+            zst::run(&mut rep);
+            rep.emit();
+        }
+        Some("zst-one") => {
+            start_watchdog(30);
+            zst::one(args[2].parse().expect("index"));
+        }
         Some("worker") => {
             let (seed, base): (u64, u64) = match args[3].split_once(':') {
                 Some((a, b)) => (a.parse().expect("seed"), b.parse().expect("base")),
@@ -707,6 +737,13 @@ fn main() {
                     run_layout_case(v["script"].as_str().unwrap_or(""), &rt, &mut drv, &mut seen, &mut rep);
                 }
                 Some("beh") => beh::replay(&v, &mut rep),
+                Some("zst") => {
+                    let name = v["name"].as_str().unwrap_or("");
+                    match zst::SCRIPTS.iter().position(|s| s.0 == name) {
+                        Some(i) => zst::run_one(i, &mut rep),
+                        None => rep.notes.push("unknown zst script".into()),
+                    }
+                }
                 _ => rep.notes.push("unknown replay kind".into()),
             }
             rep.emit();
